@@ -1342,7 +1342,39 @@ impl<'a> Binder<'a> {
             | ast::JoinOperator::FullOuter(constraint)
             | ast::JoinOperator::LeftSemi(constraint)
             | ast::JoinOperator::LeftAnti(constraint) => {
-                self.bind_join_constraint(constraint, &combined_schema)?
+                if let ast::JoinConstraint::Using(cols) = constraint {
+                    // `USING (a)` is `left.a = right.a`: each side's column is
+                    // named with the qualifier it has on that side. A bare
+                    // `a = a` would bind both operands to the same input.
+                    let side = |schema: &PlanSchema, name: &str| -> Result<Expr> {
+                        let mut hits = schema.fields().iter().filter(|f| f.name == name);
+                        let field = hits.next().ok_or_else(|| {
+                            QueryError::Bind(format!(
+                                "USING column \"{name}\" is not present on both sides of the join"
+                            ))
+                        })?;
+                        if hits.next().is_some() {
+                            return Err(QueryError::Bind(format!(
+                                "USING column \"{name}\" is ambiguous on one side of the join"
+                            )));
+                        }
+                        Ok(Expr::Column(Column {
+                            relation: field.relation.clone(),
+                            name: field.name.clone(),
+                        }))
+                    };
+                    let mut on = Vec::with_capacity(cols.len());
+                    for col in cols {
+                        let name = match col.0.first() {
+                            Some(ast::ObjectNamePart::Identifier(i)) => i.value.clone(),
+                            _ => col.to_string(),
+                        };
+                        on.push((side(&left_schema, &name)?, side(&right_schema, &name)?));
+                    }
+                    (on, None)
+                } else {
+                    self.bind_join_constraint(constraint, &combined_schema)?
+                }
             }
             ast::JoinOperator::CrossJoin(_) => (vec![], None),
             _ => (vec![], None),
